@@ -388,3 +388,45 @@ def rule_state_clear(prog):
     if n == 0:
         res.viol("anchors", f.loc, "do_action no longer removes clear-on-next-action keys")
     return res
+
+
+def rule_osh_end(prog):
+    """R-OSH-END (C06): when a one-shot ends, every per-activation list of the one-shot state is emptied."""
+    res = RuleResult("R-OSH-END", "the block of tick_osh that ends the one-shot empties every list of OneShotState", floor=3)
+    f = prog.fn("kanata_keyberon::layout::OneShotState::tick_osh")
+    res.fn(f)
+    adt = prog.adt("kanata_keyberon::layout::OneShotState")
+    lists = [fl["name"] for fl in adt["variants"][0]["fields"] if "ArrayDeque" in fl["ty"] or "Vec<" in fl["ty"]]
+    empt = {}
+    for bi, t in f.calls():
+        short = (callee_name(t) or "").split("::")[-1]
+        if short in ("clear", "drain"):
+            fl = receiver_fields(f, t)
+            if fl:
+                empt.setdefault(fl[-1], []).append(bi)
+    rets = set(f.return_blocks())
+    anchor = empt.get("keys", [])
+    if len(anchor) != 1 or len(lists) < 3:
+        res.viol("anchor", f.loc, "tick_osh: the `keys.clear()` that ends the one-shot (%d found) or the list fields of OneShotState "
+                                  "(%s) were not found" % (len(anchor), lists))
+        return res
+    bk = anchor[0]
+    for name in lists:
+        if name == "keys":
+            res.inst("ends/keys", where="%s:%s" % (f.file, f.line_of(bk)), ok=True)
+            continue
+        ok = False
+        for b in empt.get(name, []):
+            if f.dominates(b, bk):
+                ok = True      # emptied on the way to the end block (after the end condition or before it: both empty it at the end)
+            elif f.dominates(bk, b) and not (rets & f.reach_from(f.term(bk).get("t"), avoid=[b])):
+                ok = True
+        res.inst("ends/" + name, where="%s:%s" % (f.file, f.line_of(bk)), ok=ok)
+        res.oblige(ok)
+        if not ok:
+            res.viol("ends/" + name, "%s:%s" % (f.file, f.line_of(bk)),
+                     "tick_osh ends the one-shot (keys.clear()) without emptying `%s` on the same path. The one-shot can end by timeout or "
+                     "by a re-press as well as by the next key, and what is left in the list belongs to the activation that is over: the "
+                     "next activation starts with stale entries (a key that was down before the one-shot key ends it at once; a stale "
+                     "deferred release lets go of a key that is held)" % name)
+    return res
